@@ -23,11 +23,11 @@ struct Cli {
     inverse: bool,
 
     /// Specify a fixed height for all coordinates
-    #[clap(short = 'z', long, allow_negative_numbers = true)]
+    #[clap(short = 'z', long, allow_hyphen_values = true)]
     height: Option<f64>,
 
     /// Specify a fixed observation time for all coordinates
-    #[clap(short = 't', long, allow_negative_numbers = true)]
+    #[clap(short = 't', long, allow_hyphen_values = true)]
     time: Option<f64>,
 
     /// Number of decimals in output
